@@ -1,5 +1,7 @@
 (* C04 — multiply returns the pointwise product
    Property theorems only: each is closed by `exact <lemma>`; proofs live in the imported files. *)
+From Coq Require Import Reals.
+From Coquelicot Require Import Coquelicot.
 From Coq Require Import List ZArith QArith Qcanon Ring_theory Field_theory Permutation Sorted.
 Import ListNotations.
 From CK Require Import Base.
@@ -14,6 +16,7 @@ From CK Require Import Struct.
 From CK Require Import OpsProps.
 From CK Require Import Link.
 From CK Require Import LinkMul.
+From CK Require Import InputRules.
 Close Scope Qc_scope. Close Scope Q_scope. Close Scope Z_scope. Open Scope nat_scope.
 
 (* every pair node (i,j) of the product circuit evaluates to kron (value of i in c1) (value of j in c2), for all well-scoped circuits with declared unit counts, all inputs, any choice of pairs forced to the Kronecker fallback *)
@@ -86,3 +89,52 @@ Theorem C04_multiply_executable_outputs :
          multiply_m a b = Ok p -> den a y = Some oa -> den b y = Some ob -> den p y = Some (pairs vkron oa ob).
 Proof. exact multiply_exec_den_outputs. Qed.
 Print Assumptions C04_multiply_executable_outputs.
+
+(* REAL numbers: the Gaussian layer built by multiply_gaussian_layers (GaussianProductMean / GaussianProductStddev / GaussianProductLogPartition, transcribed from the torch nodes, incl. operands that already carry a log-partition) evaluates at x to the product of the two operand layers' values *)
+Theorem C04_gaussian_product_rule :
+  forall (m1 s1 : R) (lp1 : option R) (m2 s2 : R) (lp2 : option R) (x : R),
+         (0 < s1)%R ->
+         (0 < s2)%R ->
+         gauss_layer (gp_mean m1 s1 m2 s2) (gp_stddev s1 s2) (Some (gp_total_logpart m1 s1 lp1 m2 s2 lp2)) x =
+         (gauss_layer m1 s1 lp1 x * gauss_layer m2 s2 lp2 x)%R.
+Proof. exact multiply_gaussian_layers_correct. Qed.
+Print Assumptions C04_gaussian_product_rule.
+
+(* ... per unit pair (i,j) at flat index i*K2+j *)
+Theorem C04_gaussian_product_units :
+  forall (l1 l2 : glayer) (i j : nat) (x : R),
+         glayer_wf l1 ->
+         glayer_wf l2 ->
+         i < g_units l1 ->
+         j < g_units l2 ->
+         glayer_value (multiply_gaussian_layers l1 l2) (i * g_units l2 + j) x =
+         (glayer_value l1 i x * glayer_value l2 j x)%R.
+Proof. exact multiply_gaussian_layers_units. Qed.
+Print Assumptions C04_gaussian_product_units.
+
+(* REAL numbers: the Categorical layer with logits log p1 + log p2 (outer sum of log-probabilities / logits) evaluates to the product of the operand layers' values, any mix of probability / logit parameterisations *)
+Theorem C04_categorical_product_rule :
+  forall (lg1 : bool) (p1 : nat -> R) (lg2 : bool) (p2 : nat -> R) (s : nat),
+         cat_layer true (cat_product_logits lg1 p1 lg2 p2) s = (cat_layer lg1 p1 s * cat_layer lg2 p2 s)%R.
+Proof. exact multiply_categorical_layers_correct. Qed.
+Print Assumptions C04_categorical_product_rule.
+
+(* ... per unit pair *)
+Theorem C04_categorical_product_units :
+  forall (K2 : nat) (lg1 : bool) (p1 : nat -> nat -> R) (lg2 : bool) (p2 : nat -> nat -> R)
+           (i j s : nat),
+         j < K2 ->
+         cat_layer true (multiply_categorical_units K2 lg1 p1 lg2 p2 (i * K2 + j)) s =
+         (cat_layer lg1 (p1 i) s * cat_layer lg2 (p2 j) s)%R.
+Proof. exact multiply_categorical_layers_units. Qed.
+Print Assumptions C04_categorical_product_units.
+
+(* N(x;m1,s1) N(x;m2,s2) = exp(logZ) N(x; m, s) with the rule's m, s, logZ *)
+Theorem C04_gaussian_density_identity :
+  forall m1 s1 m2 s2 x : R,
+         (0 < s1)%R ->
+         (0 < s2)%R ->
+         (gauss m1 s1 x * gauss m2 s2 x)%R =
+         (exp (gp_logpart m1 s1 m2 s2) * gauss (gp_mean m1 s1 m2 s2) (gp_stddev s1 s2) x)%R.
+Proof. exact gauss_product_density. Qed.
+Print Assumptions C04_gaussian_density_identity.
